@@ -315,6 +315,9 @@ def main(run: core.Run):
         'continues and then rolled back to must be unchanged; simdist '
         'matching/stall oracle on every execution; distinct '
         'non-trivial = (configuration, crash point, flags) triples')
+    run.cap('worlds > 1 run under two fixed schedules (lowest-first eager, '
+            'lazy delivery + poisoning); interleavings are explored '
+            'exhaustively in C02/C03')
     run.sample({'config': name_of(cfgs[0]), 'crash_points': list(range(T + 1)),
                 'flags': [[True, True], [True, False], [False, True]]})
     run.assumptions += ['values from a fixed lattice',
